@@ -192,6 +192,11 @@ var unqueuedCmdTable = map[string]bool{
 }
 
 func (ctx *cmdContext) info(cs *clientState) string {
+	if ctx.multi {
+		// running inside EXEC, which already owns the data store
+		return ctx.infoUnlocked(cs)
+	}
+
 	// take complete ownership of the data store
 	ctx.dsc.acquireExclusive()
 	defer ctx.dsc.releaseExclusive()
